@@ -845,6 +845,13 @@ class Normaliser:
             return Normaliser._pure_read(e.value, sn) and isinstance(e.slice, ast.Constant)
         if isinstance(e, ast.BinOp):
             return Normaliser._pure_read(e.left, sn) and Normaliser._pure_read(e.right, sn)
+        if isinstance(e, ast.Compare):
+            return Normaliser._pure_read(e.left, sn) and all(Normaliser._pure_read(c, sn) for c in e.comparators) \
+                and not any(isinstance(o, (ast.In, ast.NotIn)) for o in e.ops)
+        if isinstance(e, ast.BoolOp):
+            return all(Normaliser._pure_read(v, sn) for v in e.values)
+        if isinstance(e, ast.UnaryOp) and isinstance(e.op, (ast.Not, ast.USub)):
+            return Normaliser._pure_read(e.operand, sn)
         if isinstance(e, ast.Call) and isinstance(e.func, ast.Name) and e.func.id == 'len' and len(e.args) == 1 and not e.keywords:
             return Normaliser._pure_read(e.args[0], sn)
         return False
@@ -1030,12 +1037,62 @@ class Normaliser:
             if sum(len(list(ast.walk(s))) for s in b) > 400:
                 continue
             helpers[name] = (cls, fn, b)
-        if not helpers:
+        modhelpers = self._module_procedures()
+        if not helpers and not modhelpers:
             return
         for rel, tree in self.trees.items():
             for fn in list(fn_nodes(tree)):
                 self._n8_block(fn, fn.body, helpers, rel)
+                if modhelpers:
+                    self._n8_mod_block(fn, fn.body, modhelpers, rel)
         self._drop_unreferenced(helpers)
+
+    def _module_procedures(self):
+        """private module-level functions without return value, defined once in the package and only ever called by bare name"""
+        cands = {}
+        counts = {}
+        for rel, tree in self.trees.items():
+            for n in tree.body:
+                if isinstance(n, ast.FunctionDef):
+                    counts[n.name] = counts.get(n.name, 0) + 1
+                    cands[n.name] = (rel, tree, n)
+        out = {}
+        for name, (rel, tree, fn) in cands.items():
+            if counts[name] != 1 or not is_private(name) or name in self.vocab or fn.decorator_list:
+                continue
+            b = body_without_doc(fn)
+            if not b or any(isinstance(x, (ast.Return, ast.Yield, ast.YieldFrom, ast.Await, ast.Global, ast.Nonlocal, ast.FunctionDef, ast.Lambda, ast.ClassDef))
+                            for s_ in b for x in ast.walk(s_)):
+                continue
+            if any(isinstance(x, ast.Name) and x.id == name for s_ in b for x in ast.walk(s_)):
+                continue
+            out[name] = (rel, fn, b)
+        return out
+
+    def _n8_mod_block(self, host, body, helpers, rel):
+        i = 0
+        while i < len(body):
+            st = body[i]
+            if isinstance(st, ast.Expr) and isinstance(st.value, ast.Call) and isinstance(st.value.func, ast.Name) and st.value.func.id in helpers \
+                    and helpers[st.value.func.id][0] == rel and host is not helpers[st.value.func.id][1]:
+                name = st.value.func.id
+                _, fn, hb = helpers[name]
+                m = bind_args(fn, st.value, has_self=False)
+                sn = stored_names(fn)
+                if m is not None and all(sn.get(p, 0) == 1 for p in m) and all(isinstance(a, (ast.Constant, ast.Name)) or self.stable_chain(a) for a in m.values()):
+                    host_names = set(stored_names(host)) | {x.id for x in ast.walk(host) if isinstance(x, ast.Name)}
+                    new = copy.deepcopy(hb)
+                    for x in [y for s_ in new for y in ast.walk(s_)]:
+                        if isinstance(x, ast.Name) and x.id in sn and x.id not in m and x.id in host_names:
+                            x.id = f'{x.id}__{name.strip("_")}'
+                    new, _ = substitute(new, dict(m))
+                    body[i:i + 1] = new
+                    self.note('N8', f'{rel}:{host.name}: module-level procedure {name} inlined')
+                    i += len(new)
+                    continue
+            for sub in self._sub_blocks(st):
+                self._n8_mod_block(host, sub, helpers, rel)
+            i += 1
 
     def _n8_block(self, host, body, helpers, rel):
         i = 0
